@@ -305,12 +305,46 @@ def write_replay(f):
     return p
 
 
+def standalone(pid, path, k):
+    """Does this replay file reproduce in a fresh process?  True / False /
+    None (not checked: VERIF_NO_REPLAY_CHECK, more than 8 files, error)."""
+    if os.environ.get('VERIF_NO_REPLAY_CHECK') or k >= 8:
+        return None
+    import subprocess
+    try:
+        r = subprocess.run(
+            [sys.executable, os.path.join(core.VERIF, 'check.py'), pid,
+             '--replay', path], capture_output=True, text=True, timeout=120)
+    except Exception:
+        return None
+    return {0: False, 1: True}.get(r.returncode)
+
+
+def warm_up(pid, mod, comp, case, tier, seed):
+    """Re-establish what a stored case depended on outside itself: run the
+    same case under the protocol versions the shared connection context had
+    carried before it (results discarded)."""
+    if not isinstance(case, dict) or not case.get('_ctx_history'):
+        return
+    key = 'version' if 'version' in case else 'release'
+    for v in case['_ctx_history']:
+        scratch = Ctx(pid, tier, seed, 'warm-up')
+        c = dict(case)
+        c[key] = v
+        try:
+            mod.COMPONENTS[comp](scratch, c)
+        except Exception:
+            pass
+
+
 def replay_case(pid, mod, tier, seed, rec):
     ctx = Ctx(pid, tier, seed, 'replay')
     comp = rec['component']
     if comp not in mod.COMPONENTS:
         raise HarnessError('unknown component %r' % comp)
-    mod.COMPONENTS[comp](ctx, dec(rec['case']))
+    case = dec(rec['case'])
+    warm_up(pid, mod, comp, case, tier, seed)
+    mod.COMPONENTS[comp](ctx, case)
     return ctx
 
 
@@ -325,7 +359,9 @@ def run_corpus(pid, mod, tier, seed):
         comp = rec['component']
         if comp not in mod.COMPONENTS:
             raise HarnessError('corpus %s: unknown component %r' % (p, comp))
-        mod.COMPONENTS[comp](ctx, dec(rec['case']))
+        case = dec(rec['case'])
+        warm_up(pid, mod, comp, case, tier, seed)
+        mod.COMPONENTS[comp](ctx, case)
         ctx.label('corpus_case')
     return ctx.export()
 
@@ -380,12 +416,22 @@ def main(argv):
                   pid, tier, seed, m['evaluations'], len(m['nontrivial']),
                   viol, wall))
         if viol:
+            items = []
             for sig, f in sorted(m['failures'].items()):
                 p = write_replay(f)
+                items.append((standalone(pid, p, len(items)), sig, f, p))
+            # replays that reproduce in a fresh process first
+            items.sort(key=lambda t: (t[0] is not True, t[1]))
+            for ok, sig, f, p in items:
                 print('  clause=%s component=%s n=%d observed=%s expected=%s'
                       % (f['oracle_clause'], f['component'],
                          f['occurrences'], core.short(f['observed'], 200),
                          core.short(f['expected'], 200)))
+                if ok is False:
+                    print('  note: this replay file did not reproduce in a '
+                          'fresh process (the failure depends on earlier '
+                          'cases of the run or on randomness inside the '
+                          'library); re-run the check to see it again')
                 print('VIOLATION property=%s replay=%s' % (pid, p))
             return 1
         return 0
